@@ -141,8 +141,8 @@ Qed.
 Lemma classify_by_position n k : 0 <= n ->
   classify n k =
   match k with
-  | EofTte => 0
-  | EofRaw => if n =? 0 then 1 else if n <? 4 then 2 else 0
+  | EofTte => if n =? 0 then 0 else 6
+  | EofRaw => if n =? 0 then 1 else if n <? 4 then 2 else 6
   | ErrRaw t => if n <? 4 then 1000 + 10 * t else 1000 + 10 * t + 1
   | ErrTte t => 1000 + 10 * t + 2
   | ClosedErr => 5
